@@ -86,16 +86,34 @@ class Res:
 def ps_exhaustive(res: Res):
     from ufo2ft.fontInfoData import normalizeStringForPostscript as f
 
+    from contracts.c16 import ps_norm_char
+
     n = 0
     for allow in (True, False):
         okset = PS_OK | ({" "} if allow else set())
         bad = []
+        differs = []
         for cp in range(0x110000):
             r = f(chr(cp), allow)
             if r and not okset.issuperset(r):
                 bad.append(cp)
+            if r != ps_norm_char(chr(cp), allow):
+                differs.append(cp)
         n += 0x110000
         res.oblig(not bad)
+        # clause `function` of the contract: the real function agrees with the independent reading on every code point
+        res.oblig(not differs)
+        if differs:
+            res.r["violations"].append(
+                _violation(
+                    f"C16.normalizeStringForPostscript.function[allowSpaces={allow}]",
+                    {"clause": "result == ps_norm(s, allowSpaces): the documented normalisation (keep acceptable ASCII, NFKD-decompose the rest, '?' for what stays non-ASCII, drop what is not acceptable)",
+                     "function": "ufo2ft.fontInfoData.normalizeStringForPostscript", "allowSpaces": allow,
+                     "failing_code_points": len(differs), "first": [f"U+{c:04X}" for c in differs[:20]],
+                     "contract": "ufo2ft.fontInfoData:normalizeStringForPostscript", "case": {"s": chr(differs[0]), "allowSpaces": allow}, "observed": f(chr(differs[0]), allow),
+                     "expected": ps_norm_char(chr(differs[0]), allow), "reproduce": f"normalizeStringForPostscript(chr({differs[0]}), allowSpaces={allow})"},
+                )
+            )
         if bad:
             res.r["violations"].append(
                 _violation(
@@ -109,7 +127,7 @@ def ps_exhaustive(res: Res):
             )
     res.r["evaluations"] += n
     res.r["distinct"] += n
-    res.r["bounded"].append({"what": "normalizeStringForPostscript per-character clause", "method": "complete enumeration of all 0x110000 code points x {allowSpaces True, False} through the real function", "exhaustive": True, "bound": None})
+    res.r["bounded"].append({"what": "normalizeStringForPostscript per-character clauses (`chars`: acceptable characters only; `function`: equal to the independent reading ps_norm_char)", "method": "complete enumeration of all 0x110000 code points x {allowSpaces True, False} through the real function", "exhaustive": True, "bound": None})
 
 
 def ps_structure(res: Res, tier, seed):
@@ -303,20 +321,11 @@ def call_sites(res: Res):
 
 
 def ps_name_doc(s, allow_spaces):
-    """Independent reading of the normalisation: keep acceptable ASCII; other characters are compatibility-
-    decomposed, non-ASCII remains become '?', and only acceptable characters survive."""
-    okset = PS_OK | ({" "} if allow_spaces else set())
-    out = []
-    for c in s:
-        if c in PS_OK:
-            out.append(c)
-            continue
-        if ord(c) < 128:
-            out.append(c if c in okset else "")
-            continue
-        d = unicodedata.normalize("NFKD", c)
-        out.append("".join(y for y in (x if ord(x) < 128 else "?" for x in d) if y in okset))
-    return "".join(out)
+    """Independent reading of the normalisation (contracts/c16.py `ps_norm`): keep acceptable ASCII; other characters
+    are compatibility-decomposed, non-ASCII remains become '?', and only acceptable characters survive."""
+    from contracts.c16 import ps_norm
+
+    return ps_norm(s, allow_spaces)
 
 
 STYLES = ["regular", "bold", "italic", "bold italic"]
